@@ -64,6 +64,13 @@ class Folder:
             if op == ">>":
                 return a >> b
             raise Unknown()
+        if k == "opcall" and x.get("op") in ("&", "|", "^", "~") and x.get("args"):
+            vals = [self.fold(fn, a, depth + 1) for a in x["args"]]
+            if x["op"] == "~" and len(vals) == 1:
+                return ~vals[0] & self.M
+            if len(vals) == 2:
+                return {"&": vals[0] & vals[1], "|": vals[0] | vals[1], "^": vals[0] ^ vals[1]}[x["op"]]
+            raise Unknown()
         if k == "call" and x.get("cn") in ("max", "min") and len(x.get("args", [])) == 2:
             a, b = self.fold(fn, x["args"][0], depth + 1), self.fold(fn, x["args"][1], depth + 1)
             return max(a, b) if x["cn"] == "max" else min(a, b)
